@@ -37,6 +37,20 @@ PUSHERS = {"std::vec::Vec::push", "std::vec::Vec::append", "std::vec::Vec::exten
            "<std::vec::Vec as std::iter::Extend>::extend", "std::vec::Vec::insert"}
 
 
+_LOSSFREE_RX = None
+
+
+def _lossfree_iteration(key):
+    """Iteration plumbing that hands on every element: into_iter/iter/drain(..)/rev/enumerate/by_ref and `next` of those iterators."""
+    import re
+    global _LOSSFREE_RX
+    if _LOSSFREE_RX is None:
+        _LOSSFREE_RX = re.compile(r"^(<(I|std::vec::Vec|std::vec::IntoIter|std::vec::Drain|std::slice::Iter|std::slice::IterMut|std::iter::Rev|std::iter::Enumerate|&mut I)"
+                                  r"( as std::iter::(Iterator|IntoIterator|DoubleEndedIterator))?>::(next|into_iter|next_back)"
+                                  r"|std::vec::Vec::(into_iter|drain|iter)|std::iter::Iterator::(rev|enumerate|by_ref)|std::slice::iter)$")
+    return key in CONTAINER_FNS or bool(_LOSSFREE_RX.match(key))
+
+
 def holders(body, flow, seeds, passes=None):
     """Locals that (may) hold the reference(s) in `seeds` by identity: copies/moves/reborrows/casts,
     projections of holders, aggregates containing a holder, containers a holder was pushed into,
@@ -368,8 +382,29 @@ def run(ctx, rep, prop="C20"):
                 if not has_file:
                     continue
                 ok = any(("@" + v["name"]) in f2 for _bi, f2 in pushes)
+                why = ""
+                if not ok:
+                    # element-wise form: `for f in files { loaded_files.push(f) }` - every element arrives iff the iteration from the
+                    # variant's payload to the push uses no element-dropping adaptor (zip, skip, take, filter, step_by, ...)
+                    for bi, t in flow.calls():
+                        if callee_key(t["f"]) not in PUSHERS or len(t["args"]) < 2 or "loaded_files" not in place_chain(flow, t["args"][0])[0]:
+                            continue
+                        leaves = [x for x in flow.deep_origins(t["args"][1]) if x[0] == "call"]
+                        srcs = [x for x in leaves if (x[1] or "").endswith("::into_iter") or (x[1] or "").endswith("::drain")]
+                        from_variant = False
+                        for x in srcs:
+                            ct = ex.blocks[x[2]]["t"]
+                            if ct["k"] == "call" and ct["args"] and ("@" + v["name"]) in place_chain(flow, ct["args"][0])[0]:
+                                from_variant = True
+                        if not from_variant:
+                            continue
+                        lossy = sorted({x[1] for x in leaves if not _lossfree_iteration(x[1] or "")})
+                        if not lossy:
+                            ok = True
+                        else:
+                            why = f" (the element-wise loop goes through {lossy}, which can drop elements)"
                 rep.ob("extract", f"variant:{v['name']}", ok,
-                       f"LoadedFileState::{v['name']} carries input files; extract_file must push them to loaded_files", ex.file, ex.line)
+                       f"LoadedFileState::{v['name']} carries input files; extract_file must push every one of them to loaded_files" + why, ex.file, ex.line)
 
     # ---- check-runs ------------------------------------------------------------------------------------
     lf = F.body("libwild::Linker::link_for_arch")
